@@ -803,6 +803,205 @@ def is_list_end(tu, e, F, aliases, which):
     return sd.get('q', '').split('::')[-1] in which and obj is not None and list_expr(tu, obj, F, aliases)
 
 
+def find_lambda(tu, e):
+    """the call operator (function entry) of a lambda expression passed as an argument, through the closure copy"""
+    e = tu.strip(e, casts=True)
+    for _ in range(4):
+        if e is not None and e.get('kind') in ('CXXConstructExpr', 'CXXTemporaryObjectExpr') and len(tu.kids(e)) == 1:
+            e = tu.strip(tu.kids(e)[0], casts=True)
+    if e is None or e.get('kind') != 'LambdaExpr':
+        return None
+    return tu.functions.get(tu.sd(e).get('op'))
+
+
+def null_literal(tu, e):
+    e = tu.strip(e, casts=True)
+    return e is not None and (e.get('kind') in ('CXXNullPtrLiteralExpr', 'GNUNullExpr') or
+                              (e.get('kind') == 'IntegerLiteral' and e.get('value') == '0'))
+
+
+def for_each_orphans(tu, f, F, al, analysed):
+    """std::for_each(list.begin(), list.end(), [](Observer *o) { o->observee = nullptr; }): the callable is applied to every
+    element; its body must assign null to the observee of its parameter on every path"""
+    body = tu.body(f)
+    calls = [x for x in tu.walk(body) if x.get('kind') == 'CallExpr' and tu.sd(x).get('q') == 'std::for_each']
+    if len(calls) != 1:
+        return None
+    s_, o_, args = tu.call_parts(calls[0])
+    if len(args) != 3 or not is_list_end(tu, args[0], F, al, ('begin',)) or not is_list_end(tu, args[1], F, al, ('end',)):
+        return ('undecided', 'std::for_each is not applied to [begin, end) of the observer list')
+    lam = find_lambda(tu, args[2])
+    if lam is None or tu.cfg(lam) is None:
+        return ('undecided', 'the callable given to std::for_each is not a lambda with a visible body')
+    if not on_every_path(tu.cfg(f), calls[0]['id']):
+        return ('undecided', 'std::for_each is not executed on every path of the destructor')
+    ps = lam['params']
+    if len(ps) != 1 or not ptr_to(base_type(ps[0]['ct']), OBSR):
+        return ('undecided', 'lambda parameter is not one Observer*')
+    g = tu.cfg(lam)
+    if g.back_edges():
+        return ('undecided', 'loop in the lambda')
+    assigns = []
+    for x in tu.walk(tu.body(lam)):
+        if x.get('kind') == 'BinaryOperator' and x.get('opcode') == '=':
+            lhs = tu.strip(tu.kids(x)[0], casts=True)
+            if lhs.get('kind') == 'MemberExpr' and tu.sd(lhs).get('d') == F.observee['id']:
+                base = tu.strip(tu.kids(lhs)[0], casts=True) if tu.kids(lhs) else None
+                while base is not None and base.get('kind') == 'UnaryOperator' and base.get('opcode') == '*':
+                    base = tu.strip(tu.kids(base)[0], casts=True)
+                if base is not None and tu.ref_decl(base) == ps[0]['id']:
+                    assigns.append((x, null_literal(tu, tu.kids(x)[1])))
+    analysed.add(lam['id'])
+    if not assigns:
+        return ('violation', 'no-orphaning', '~Observable visits its observers without clearing their observee pointer: every registered '
+                'observer keeps a dangling pointer')
+    if not all(n for x, n in assigns):
+        return ('violation', 'orphan-not-null', '~Observable assigns a non-null value to the observee of its observers')
+    if not any(on_every_path(g, x['id']) for x, n in assigns):
+        return ('undecided', 'the assignment of null is not executed on every path of the lambda')
+    return ('ok', 'std::for_each over the whole observer list with a lambda that assigns null to the observee of its argument')
+
+
+def compaction_remove(tu, f, F, al):
+    """hand-written erase-remove:   keep = L.begin();  for (it = L.begin(); it != L.end(); ++it) if (*it != &arg) *keep++ = *it;
+    L.erase(keep, L.end());   -- the reference implementation of std::remove followed by erase.  Exact shape only."""
+    body = tu.body(f)
+    if body is None or body.get('kind') != 'CompoundStmt':
+        return False
+    target = set()       # const locals holding &arg
+    keep = it = None
+    stage = 0
+
+    def is_var(e, vid):
+        e = tu.strip(e, casts=True)
+        return e is not None and e.get('kind') == 'DeclRefExpr' and e.get('referencedDecl', {}).get('id') == vid and vid is not None
+
+    def opcall(e, name):
+        e = tu.strip(e, casts=True)
+        if e is not None and e.get('kind') == 'CXXOperatorCallExpr' and tu.sd(e).get('q', '').split('::')[-1] == name:
+            return tu.kids(e)[1:]
+        return None
+
+    def deref_of(e, vid):
+        a = opcall(e, 'operator*')
+        return a is not None and len(a) == 1 and is_var(a[0], vid)
+
+    def is_target(e):
+        return addr_of_param(tu, e, f) or any(is_var(e, v) for v in target)
+
+    def single(stmt):
+        stmt = tu.strip(stmt)
+        while stmt is not None and stmt.get('kind') == 'CompoundStmt' and len(tu.kids(stmt)) == 1:
+            stmt = tu.strip(tu.kids(stmt)[0])
+        return stmt
+
+    for st in tu.kids(body):
+        st = tu.strip(st)
+        k = st.get('kind')
+        if k == 'DeclStmt' and len(tu.kids(st)) == 1 and tu.kids(st)[0].get('kind') == 'VarDecl' and tu.kids(tu.kids(st)[0]):
+            v = tu.kids(st)[0]
+            init = tu.kids(v)[-1]
+            if addr_of_param(tu, init, f) and 'const' in v.get('type', {}).get('qualType', '').split('*')[-1]:
+                target.add(v['id'])
+                continue
+            if stage == 0 and is_list_end(tu, init, F, al, ('begin',)):
+                keep = v['id']
+                stage = 1
+                continue
+            return False
+        if k == 'ForStmt' and stage == 1:
+            ks = tu.kids(st)
+            if len(ks) != 4 or ks[0].get('kind') != 'DeclStmt' or len(tu.kids(ks[0])) != 1:
+                return False
+            v = tu.kids(ks[0])[0]
+            if v.get('kind') != 'VarDecl' or not tu.kids(v) or not is_list_end(tu, tu.kids(v)[-1], F, al, ('begin',)):
+                return False
+            it = v['id']
+            c = opcall(ks[1], 'operator!=')
+            if c is None or len(c) != 2 or not ((is_var(c[0], it) and is_list_end(tu, c[1], F, al, ('end',))) or
+                                                (is_var(c[1], it) and is_list_end(tu, c[0], F, al, ('end',)))):
+                return False
+            inc = opcall(ks[2], 'operator++')
+            if inc is None or not inc or not is_var(inc[0], it):
+                return False
+            ifs = single(ks[3])
+            if ifs is None or ifs.get('kind') != 'IfStmt' or len(tu.kids(ifs)) != 2:
+                return False
+            cond = tu.strip(tu.kids(ifs)[0], casts=True)
+            if cond.get('kind') != 'BinaryOperator' or cond.get('opcode') != '!=':
+                return False
+            a, b = tu.kids(cond)
+            if not ((deref_of(a, it) and is_target(b)) or (deref_of(b, it) and is_target(a))):
+                return False
+            then = tu.strip(tu.kids(ifs)[1])
+            stmts = [tu.strip(x) for x in tu.kids(then)] if then.get('kind') == 'CompoundStmt' else [then]
+
+            def is_copy(x, post):
+                x = tu.strip(x, casts=True)
+                if x is None or x.get('kind') != 'BinaryOperator' or x.get('opcode') != '=':
+                    return False
+                l, r = tu.kids(x)
+                if not deref_of(r, it):
+                    return False
+                if post:
+                    a = opcall(l, 'operator*')
+                    if a is None or len(a) != 1:
+                        return False
+                    pi = opcall(a[0], 'operator++')
+                    return pi is not None and len(pi) == 2 and is_var(pi[0], keep)       # keep++ (postfix: dummy int argument)
+                return deref_of(l, keep)
+            if len(stmts) == 1 and is_copy(stmts[0], True):
+                pass
+            elif len(stmts) == 2 and is_copy(stmts[0], False):
+                pi = opcall(stmts[1], 'operator++')
+                if pi is None or not pi or not is_var(pi[0], keep):
+                    return False
+            else:
+                return False
+            stage = 2
+            continue
+        if k == 'CXXMemberCallExpr' and stage == 2:
+            sd, obj, args = tu.call_parts(st)
+            if sd.get('q', '').split('::')[-1] != 'erase' or obj is None or not list_expr(tu, obj, F, al) or len(args) != 2:
+                return False
+            if not is_var(unwrap_iter(tu, args[0]), keep) or not is_list_end(tu, args[1], F, al, ('end', 'cend')):
+                return False
+            stage = 3
+            continue
+        return False
+    return stage == 3 and F.observers['ct'].startswith('std::vector<')
+
+
+def own_member_calls(tu, f):
+    """calls to other members of Observable/Observer inside f (helpers the normal-form rules do not look into)"""
+    out = []
+    for x in tu.walk(tu.body(f)):
+        if x.get('id') and tu.sd(x).get('k') == 'call' and tu.sd(x).get('rec') in (OBSV, OBSR):
+            out.append(x)
+    return out
+
+
+def follow_forwarding(tu, f):
+    """a member whose whole body is one call of another Observable member on *this with its own parameters forwarded in order
+    is represented by that member (e.g. removeObserver -> a private unlink(Observer&))"""
+    for _ in range(3):
+        body = tu.body(f)
+        ks = [tu.strip(x) for x in tu.kids(body)] if body is not None and body.get('kind') == 'CompoundStmt' else []
+        if len(ks) == 1 and ks[0].get('kind') == 'ReturnStmt' and tu.kids(ks[0]):
+            ks = [tu.strip(tu.kids(ks[0])[0])]
+        if len(ks) != 1 or ks[0].get('kind') != 'CXXMemberCallExpr':
+            return f
+        sd, obj, args = tu.call_parts(ks[0])
+        callee = tu.callee_fn(ks[0])
+        if callee is None or callee.get('rec') != OBSV or tu.cfg(callee) is None or (obj is not None and not tu.is_this(obj)):
+            return f
+        if [tu.ref_decl(a) for a in args] != [p['id'] for p in f['params']] or len(callee['params']) != len(args):
+            return f
+        f = callee
+    return f
+
+
+
 def check_observable(ctx, tu, F, analysed):
     R1 = 'R-C19-1'
     n = 0
@@ -815,15 +1014,19 @@ def check_observable(ctx, tu, F, analysed):
             ctx.broken('R-C19-1: expected exactly one body of Observable %s, found %d' % (need, len(byq.get(need, []))))
             return n
     # ---- registerObserver
-    f = byq[REG][0]
+    f0 = byq[REG][0]
+    analysed.add(f0['id'])
+    f = follow_forwarding(tu, f0)
     analysed.add(f['id'])
     n += 1
-    inst, file = fn_name(f), tu.fn_file(f)
+    inst, file = fn_name(f0), tu.fn_file(f0)
     al = list_aliases(tu, f, F)
     calls = list_calls(tu, f, F, al)
     appends = [c for c in calls if c[0] in ('push_back', 'emplace_back') and len(c[2]) == 1 and addr_of_param(tu, c[2][0], f)]
     g = tu.cfg(f)
-    if not calls:
+    if not calls and own_member_calls(tu, f):
+        ctx.undecided(R1, inst, 'registerObserver delegates to other members in a form the analysis does not follow', tu.fn_loc(f))
+    elif not calls:
         ctx.violation(R1, inst, 'registerObserver does not add the observer to the list: ~Observable cannot orphan it and the observer '
                       'keeps a dangling observee pointer', tu.fn_loc(f), key='%s|%s|%s|not-registered' % (R1, file, inst))
     elif len(appends) == 1 and len(calls) == 1 and on_every_path(g, appends[0][1]['id']):
@@ -831,10 +1034,12 @@ def check_observable(ctx, tu, F, analysed):
     else:
         ctx.undecided(R1, inst, 'list operations %s are not the recognised form push_back(&arg) on every path' % [c[0] for c in calls], tu.fn_loc(f))
     # ---- removeObserver
-    f = byq[UNREG][0]
+    f0 = byq[UNREG][0]
+    analysed.add(f0['id'])
+    f = follow_forwarding(tu, f0)
     analysed.add(f['id'])
     n += 1
-    inst, file = fn_name(f), tu.fn_file(f)
+    inst, file = fn_name(f0), tu.fn_file(f0)
     al = list_aliases(tu, f, F)
     calls = list_calls(tu, f, F, al)
     erases = [c for c in calls if c[0] == 'erase']
@@ -846,7 +1051,12 @@ def check_observable(ctx, tu, F, analysed):
                 and addr_of_param(tu, a[2], f):
             good_remove = r
     mutating = [c for c in calls if c[0] not in ('begin', 'end', 'cbegin', 'cend', 'size', 'empty')]
-    if not mutating and not removes:
+    if compaction_remove(tu, f, F, al):
+        ctx.ok(R1, inst, 'hand-written stable compaction (the definition of std::remove) followed by erase(keep, end) on the observer list',
+               tu.fn_loc(f))
+    elif not mutating and not removes and own_member_calls(tu, f):
+        ctx.undecided(R1, inst, 'removeObserver delegates to other members in a form the analysis does not follow', tu.fn_loc(f))
+    elif not mutating and not removes:
         ctx.violation(R1, inst, 'removeObserver does not remove the observer from the list: ~Observable later writes through a dangling '
                       'Observer*', tu.fn_loc(f), key='%s|%s|%s|not-removed' % (R1, file, inst))
     elif good_remove is not None and not erases:
@@ -866,21 +1076,27 @@ def check_observable(ctx, tu, F, analysed):
     else:
         ctx.undecided(R1, inst, 'list operations %s are not the recognised erase-remove idiom' % [c[0] for c in calls], tu.fn_loc(f))
     # ---- ~Observable
-    f = byq['dtor'][0]
+    f0 = byq['dtor'][0]
+    analysed.add(f0['id'])
+    f = follow_forwarding(tu, f0)
     analysed.add(f['id'])
     n += 1
-    inst, file = fn_name(f), tu.fn_file(f)
+    inst, file = fn_name(f0), tu.fn_file(f0)
     g = tu.cfg(f)
     al = list_aliases(tu, f, F)
     body = tu.body(f)
     refs_list = any(list_expr(tu, x, F, al) for x in tu.walk(body) if x.get('kind') in ('MemberExpr', 'DeclRefExpr'))
     loops = [x for x in tu.walk(body) if x.get('kind') == 'CXXForRangeStmt']
     verdict = None
-    if not refs_list:
+    if not refs_list and own_member_calls(tu, f):
+        verdict = ('undecided', '~Observable delegates to other members in a form the analysis does not follow')
+    elif not refs_list:
         verdict = ('violation', 'no-orphaning', '~Observable does not visit its observers: every registered observer keeps a dangling '
                    'observee pointer (use-after-free in wasNotified / ~Observer)')
     elif len(loops) == 1:
         verdict = range_for_orphans(tu, f, g, loops[0], F, al)
+    elif not loops:
+        verdict = for_each_orphans(tu, f, F, al, analysed)
     if verdict is None:
         ctx.undecided(R1, inst, 'destructor visits the observer list in a form the analysis does not recognise (expected a range-for '
                       'assigning null to the observee of every element)', tu.fn_loc(f))
@@ -891,10 +1107,12 @@ def check_observable(ctx, tu, F, analysed):
     else:
         ctx.violation(R1, inst, verdict[2], tu.fn_loc(f), key='%s|%s|%s|%s' % (R1, file, inst, verdict[1]))
     # ---- notifyObservers
-    f = byq[NOTIFY][0]
+    f0 = byq[NOTIFY][0]
+    analysed.add(f0['id'])
+    f = follow_forwarding(tu, f0)
     analysed.add(f['id'])
     n += 1
-    inst, file = fn_name(f), tu.fn_file(f)
+    inst, file = fn_name(f0), tu.fn_file(f0)
     g = tu.cfg(f)
     renews = []
     for b, i, x in g.stmts():
@@ -903,7 +1121,9 @@ def check_observable(ctx, tu, F, analysed):
             o = tu.strip(obj, casts=True) if obj is not None else None
             if o is not None and tu.sd(o).get('d') == F.last_notified['id'] and (not tu.kids(o) or tu.is_this(tu.kids(o)[0])):
                 renews.append(x)
-    if not renews:
+    if not renews and own_member_calls(tu, f):
+        ctx.undecided(R1, inst, 'notifyObservers delegates to other members in a form the analysis does not follow', tu.fn_loc(f))
+    elif not renews:
         ctx.violation(R1, inst, 'notifyObservers does not renew lastNotified: observers never see the notification', tu.fn_loc(f),
                       key='%s|%s|%s|no-renew' % (R1, file, inst))
     elif all(on_every_path(g, r['id']) for r in renews) and not g.back_edges():
